@@ -1,6 +1,7 @@
 package main
 
 import (
+	"os"
 	"fmt"
 	"go/constant"
 	"go/token"
@@ -555,14 +556,37 @@ func (a *Analysis) CheckC14(rep *Report) {
 					rep.Ob("H2-deterministic", name+":"+e.Kind.String(), false, epos, "Calc performs "+e.String())
 				}
 			})
-			for _, r := range p.Ret {
-				if r.Contains(func(x *Val) bool {
+			fromReceiver := func(v *Val) bool {
+				return v != nil && v.Contains(func(x *Val) bool {
 					if x.Op != "init" {
 						return false
 					}
 					rt := addrRoot(x.Args[0])
 					return rt != nil && rt.Op == "param" && rt.ID == 0
-				}) {
+				})
+			}
+			// what the loops carry from one byte to the next (the running value) and what decides their course
+			walkEvents(p.Events, func(e *Event, _ int) {
+				for _, arm := range e.Iter {
+					for nm, nx := range arm.Next {
+						if fromReceiver(nx) {
+							rep.Ob("H2-service-stateless", name+":loop:"+nm, false, a.P.Pos(e.Pos), "the running value depends on state held in the service object: "+nx.Pretty())
+						}
+					}
+					for _, c := range arm.Conds {
+						if fromReceiver(c.V) {
+							rep.Ob("H2-service-stateless", name+":loopcond", false, a.P.Pos(e.Pos), "the course of the computation depends on state held in the service object: "+c.V.Pretty())
+						}
+					}
+				}
+			})
+			for _, c := range p.Conds {
+				if fromReceiver(c.V) {
+					rep.Ob("H2-service-stateless", name+":cond", false, pos, "the course of the computation depends on state held in the service object: "+c.V.Pretty())
+				}
+			}
+			for _, r := range p.Ret {
+				if fromReceiver(r) {
 					rep.Ob("H2-service-stateless", name+":ret", false, pos, "the result depends on state held in the service object: "+r.Pretty())
 				}
 				if r.Contains(func(x *Val) bool {
@@ -630,7 +654,45 @@ func (a *Analysis) CheckC14(rep *Report) {
 			if len(iv.rets) > 0 {
 				rep.Ob("H5-crc16-state-16-bit", name+":interval", iv.rets[0].within(itv{lo: 0, hi: 65535}), pos, "returned value ranges over "+iv.rets[0].String())
 			}
-			rep.Notes = append(rep.Notes, "CRC16: polynomial/initial value/reflection of the bit loop are not decided statically (value-level fact; DESIGN §6)")
+			if os.Getenv("FPDEBUG") == "crc" {
+				for _, p := range paths {
+					fmt.Fprintln(os.Stderr, "crc16 path", pathKind(p), "ret", prettyVals(p.Ret))
+					walkEvents(p.Events, func(e *Event, d int) {
+						if e.Kind == EvRep {
+							fmt.Fprintln(os.Stderr, "  REP depth", d, "count", valOrNil(e.Count), "arms", len(e.Iter))
+							for _, arm := range e.Iter {
+								for nm, nx := range arm.Next {
+									fmt.Fprintln(os.Stderr, "    next", nm, "=", nx.Key())
+								}
+								for _, c := range arm.Conds {
+									fmt.Fprintln(os.Stderr, "    cond", c.String())
+								}
+							}
+						}
+					})
+				}
+			}
+			// H6: where the computation has one of the two textbook shapes, its constants are decided: the bit-by-bit loop
+			// (state ^= byte; eight times: shift right, xor the polynomial when the bit shifted out was set) with initial
+			// value 0xFFFF and polynomial 0xA001, or the byte-at-a-time loop state = state>>8 ^ T[byte(state) ^ b] over a
+			// table T whose 256 entries – established by evaluating the one function that fills it – are those of that
+			// polynomial. Any other shape is left undecided (a note, no verdict).
+			decided := false
+			for _, p := range paths {
+				if pathKind(p) != "ok" || shortcut[p] {
+					continue
+				}
+				form, problems := a.crc16Form(p)
+				if form == "" {
+					continue
+				}
+				decided = true
+				rep.Ob("H6-crc16-modbus-constants", name+":"+form, len(problems) == 0, pos, "CRC-16 in its "+form+" form is not CRC-16/MODBUS: "+strings.Join(problems, "; "))
+				rep.Sample(map[string]interface{}{"service": name, "algorithm": svc.Name, "form": form, "decided": "initial value 0xFFFF, reflected polynomial 0xA001" + map[bool]string{true: ", 256 table entries", false: ""}[form == "table-driven"]})
+			}
+			if !decided {
+				rep.Notes = append(rep.Notes, "CRC16: the computation has neither the bit-by-bit nor the table-driven textbook shape (or its table could not be evaluated): polynomial, initial value and reflection are not decided (DESIGN §6)")
+			}
 		case "crc32":
 			// handled by wholeInput(crc32 form)
 			rep.Sample(map[string]interface{}{"service": name, "algorithm": svc.Name, "form": "hash/crc32.ChecksumIEEE(data.Bytes())"})
@@ -1133,4 +1195,228 @@ func byteSumTerm(p *Path, data *Val) (bool, string) {
 func isConstK(v *Val, k int64) bool {
 	n, ok := v.Int64()
 	return ok && n == k
+}
+
+// crc16Form recognises the two textbook shapes of a reflected CRC-16 on a success path of Calc and checks their
+// constants against CRC-16/MODBUS. form is "" when the path has neither shape (or the table cannot be evaluated).
+func (a *Analysis) crc16Form(p *Path) (form string, problems []string) {
+	if len(p.Ret) != 1 {
+		return "", nil
+	}
+	ret := stripCT(p.Ret[0])
+	if ret.Op != "loopout" || len(ret.Args) == 0 {
+		return "", nil
+	}
+	var outer *Event
+	for _, e := range p.Events {
+		if e.Kind == EvRep && e.LoopID == ret.ID {
+			outer = e
+		}
+	}
+	if outer == nil || len(outer.Iter) != 1 || outer.Partial {
+		return "", nil
+	}
+	arm := outer.Iter[0]
+	next := stripCT(arm.Next[ret.Name])
+	if next == nil {
+		return "", nil
+	}
+	lv := &Val{Op: "loopvar", ID: ret.ID, Name: ret.Name, Args: ret.Args[:1]}
+	isLV := func(v *Val, id int, name string) bool {
+		v = stripCT(v)
+		return v != nil && v.Op == "loopvar" && v.ID == id && v.Name == name
+	}
+	bin := func(v *Val, op string) (*Val, *Val, bool) {
+		v = stripCT(v)
+		if v == nil || v.Op != "binop" || v.Name != op || len(v.Args) != 2 {
+			return nil, nil, false
+		}
+		return stripCT(v.Args[0]), stripCT(v.Args[1]), true
+	}
+	either := func(x, y *Val, f func(a, b *Val) bool) bool { return f(x, y) || f(y, x) }
+	isByte := func(v *Val) bool { // the current input byte, possibly widened
+		v = stripCT(v)
+		for v != nil && v.Op == "conv" && len(v.Args) == 1 {
+			if b, ok := v.Type.Underlying().(*types.Basic); !ok || b.Info()&types.IsUnsigned == 0 {
+				return false
+			}
+			v = stripCT(v.Args[0])
+		}
+		if v == nil || v.Op != "init" || len(v.Args) != 1 {
+			return false
+		}
+		ix := stripCT(v.Args[0])
+		return ix != nil && ix.Op == "index" && len(ix.Args) == 2 && stripCT(ix.Args[0]).Op == "bufbytes"
+	}
+	shrBy := func(v *Val, id int, name string, k int64) bool {
+		x, n, ok := bin(v, ">>")
+		if !ok || !isLV(x, id, name) {
+			return false
+		}
+		c, isC := n.Int64()
+		return isC && c == k
+	}
+	initOK := func() {
+		if c, ok := stripCT(ret.Args[0]).Int64(); !ok || c != 0xFFFF {
+			problems = append(problems, "the register starts at "+ret.Args[0].Pretty()+", not 0xFFFF")
+		}
+	}
+	_ = lv
+	// table-driven: next = (lv >> 8) ^ T[byte(lv) ^ b]
+	if x, y, ok := bin(next, "^"); ok {
+		var tab *Val
+		if either(x, y, func(s, t *Val) bool {
+			if !shrBy(s, ret.ID, ret.Name, 8) || t.Op != "init" || len(t.Args) != 1 {
+				return false
+			}
+			ix := stripCT(t.Args[0])
+			if ix == nil || ix.Op != "index" || len(ix.Args) != 2 || stripCT(ix.Args[0]).Op != "global" {
+				return false
+			}
+			idx := stripCT(ix.Args[1])
+			okIdx := false
+			// byte(lv) ^ b
+			if p, q, ok2 := bin(idx, "^"); ok2 {
+				okIdx = either(p, q, func(u, w *Val) bool {
+					return u.Op == "conv" && typeStr(u.Type) == "uint8" && isLV(u.Args[0], ret.ID, ret.Name) && isByte(w) && typeStr(stripCT(w).Type) == "uint8"
+				})
+			}
+			// byte(lv ^ uint16(b))  /  (lv ^ uint16(b)) & 0xFF
+			inner := idx
+			if idx.Op == "conv" && typeStr(idx.Type) == "uint8" && len(idx.Args) == 1 {
+				inner = stripCT(idx.Args[0])
+			} else if p, q, ok2 := bin(idx, "&"); ok2 {
+				if c, isC := q.Int64(); isC && c == 0xFF {
+					inner = p
+				} else if c, isC := p.Int64(); isC && c == 0xFF {
+					inner = q
+				}
+			}
+			if !okIdx && inner != idx {
+				if p, q, ok2 := bin(inner, "^"); ok2 {
+					okIdx = either(p, q, func(u, w *Val) bool { return isLV(u, ret.ID, ret.Name) && isByte(w) })
+				}
+			}
+			if !okIdx {
+				return false
+			}
+			tab = stripCT(ix.Args[0])
+			return true
+		}) {
+			g, _ := tab.Aux.(*ssa.Global)
+			if g == nil {
+				return "", nil
+			}
+			vals := a.P.TableInts(g)
+			if vals == nil {
+				return "", nil
+			}
+			form = "table-driven"
+			initOK()
+			if len(vals) != 256 {
+				problems = append(problems, fmt.Sprintf("the table %s has %d entries, not 256", tab.Pretty(), len(vals)))
+				return
+			}
+			for i := 0; i < 256; i++ {
+				c := uint16(i)
+				for k := 0; k < 8; k++ {
+					if c&1 != 0 {
+						c = c>>1 ^ 0xA001
+					} else {
+						c >>= 1
+					}
+				}
+				if uint16(vals[i]) != c || vals[i] < 0 || vals[i] > 0xFFFF {
+					problems = append(problems, fmt.Sprintf("entry %d of %s is %#04x after start-up, CRC-16/MODBUS (reflected polynomial 0xA001) has %#04x there", i, tab.Pretty(), vals[i], c))
+					break
+				}
+			}
+			return
+		}
+	}
+	// bit by bit: next = loopout#inner(lv ^ uint16(b)); inner: 8 times, two ways
+	if next.Op != "loopout" || len(next.Args) == 0 {
+		return "", nil
+	}
+	if x, y, ok := bin(next.Args[0], "^"); !ok || !either(x, y, func(u, w *Val) bool { return isLV(u, ret.ID, ret.Name) && isByte(w) }) {
+		return "", nil
+	}
+	var innerRep *Event
+	for _, e := range arm.Events {
+		if e.Kind == EvRep && e.LoopID == next.ID {
+			innerRep = e
+		}
+	}
+	if innerRep == nil || len(innerRep.Iter) != 2 || innerRep.Partial {
+		return "", nil
+	}
+	if n, ok := affOf(innerRep.Count).IsConst(); !ok || n != 8 {
+		return "", nil
+	}
+	var poly *Val
+	plain := false
+	for _, ia := range innerRep.Iter {
+		nx := stripCT(ia.Next[next.Name])
+		if nx == nil {
+			return "", nil
+		}
+		// which way: the test on the low bit
+		var bitSet, found bool
+		for _, c := range ia.Conds {
+			l, r, ok := bin(c.V, "!=")
+			op := "!="
+			if !ok {
+				l, r, ok = bin(c.V, "==")
+				op = "=="
+			}
+			if !ok {
+				continue
+			}
+			m, one, okA := bin(l, "&")
+			z, isZ := r.Int64()
+			if !okA || !isZ {
+				continue
+			}
+			if k, isK := one.Int64(); !(isK && k == 1 && isLV(m, next.ID, next.Name)) {
+				if k2, isK2 := m.Int64(); !(isK2 && k2 == 1 && isLV(one, next.ID, next.Name)) {
+					continue
+				}
+			}
+			found = true
+			// (lv&1 != 0) taken, (lv&1 == 1) taken, (lv&1 == 0) not taken, (lv&1 != 1) not taken
+			bitSet = (op == "!=" && z == 0 && c.Taken) || (op == "==" && z == 1 && c.Taken) || (op == "==" && z == 0 && !c.Taken) || (op == "!=" && z == 1 && !c.Taken)
+		}
+		if !found {
+			return "", nil
+		}
+		if bitSet {
+			x, y, ok := bin(nx, "^")
+			if !ok {
+				return "", nil
+			}
+			if !either(x, y, func(u, w *Val) bool {
+				if _, isC := w.Int64(); !isC || !shrBy(u, next.ID, next.Name, 1) {
+					return false
+				}
+				poly = w
+				return true
+			}) {
+				return "", nil
+			}
+		} else {
+			if !shrBy(nx, next.ID, next.Name, 1) {
+				return "", nil
+			}
+			plain = true
+		}
+	}
+	if poly == nil || !plain {
+		return "", nil
+	}
+	form = "bit-by-bit"
+	initOK()
+	if c, _ := poly.Int64(); c != 0xA001 {
+		problems = append(problems, fmt.Sprintf("the polynomial xor-ed in is %#04x, not 0xA001", c))
+	}
+	return
 }
